@@ -1,4 +1,5 @@
 import J5V.Codec.SpellingProofs
+import J5V.Codec.FaultProofs
 import J5V.Generated.CodecFacts
 /-!
 # C03 — decoding is exact or rejected
@@ -119,6 +120,64 @@ theorem C03_int_exact (O : Oracle) (text : Bytes) (v : PVal)
   cases hp : parseInt text 64 with
   | none => simp [hp] at h
   | some i => simp only [hp] at h; cases h; exact ⟨i, rfl, rfl⟩
+
+/-! ## structural faults are rejected -/
+
+/-- unknown key: a member whose name the property set does not have fails the object / the oneof
+(`"no such field"` / `"no such key"`), whatever follows and whatever was decoded before -/
+theorem C03_fault_unknown_key (c : Cfg) (props : List PropDef) (k kr : Bytes) (v : PTree)
+    (rest : PMembers) (st : PS) (h : findProp props k = none) :
+    (∃ e, decObjMembers c props (.cons k kr v rest) st = .err e) ∧
+    (k ≠ ascii "!type" → ∀ found ct, ∃ e, decOneofMembers c props (.cons k kr v rest) st found ct = .err e) :=
+  ⟨unknown_key_object c props k kr v rest st h,
+   fun hk found ct => unknown_key_oneof c props k kr v rest st found ct hk h⟩
+
+/-- duplicate key: a second non-null value for a property that was already given is rejected
+(`CreateField`: "already set") for every field kind and every value -/
+theorem C03_fault_duplicate_key (c : Cfg) (props : List PropDef) (p : PropDef) (t : PTree) (st : PS)
+    (hseen : p.jsonName ∈ st.seen) (hnn : t ≠ .null) : ∃ e, decProp c props p t st = .err e :=
+  duplicate_key c props p t st hseen hnn
+
+/-- more than one key in a oneof; a `!type` that contradicts the key present; a `!type` naming no
+member — all rejected by the post-checks, which fail the whole oneof -/
+theorem C03_fault_oneof (ops : List PropDef) :
+    (∀ a b rest ct, ∃ e, oneofPost ops (a :: b :: rest) ct = .err e) ∧
+    (∀ k name, k ≠ name → ∃ e, oneofPost ops [k] (some name) = .err e) ∧
+    (∀ name, findProp ops name = none → ∃ e, oneofPost ops [] (some name) = .err e) ∧
+    (∀ st found ct term, (∃ e, oneofPost ops found ct = .err e) →
+      ∃ e, finishOneof ops (.ok (st, found, ct, term)) = .err e) :=
+  ⟨oneof_multiple_keys ops, oneof_type_mismatch ops, oneof_type_unknown ops,
+   finishOneof_post_err ops⟩
+
+/-- every key of a oneof body other than `!type` is counted (`foundKeys`), so a body with two
+keys reaches the post-checks with at least two entries -/
+theorem C03_oneof_keys_counted (c : Cfg) (ops : List PropDef) (ms : PMembers) (st : PS)
+    (found : List Bytes) (ct : Option Bytes) (st' : PS) (found' : List Bytes) (ct' : Option Bytes)
+    (term : Term) (h : decOneofMembers c ops ms st found ct = .ok (st', found', ct', term)) :
+    found.length ≤ found'.length :=
+  decOneofMembers_found_grows c ops ms st found ct st' found' ct' term h
+
+/-- faults at any position: an error while decoding a member value is an error of the enclosing
+object — at the member itself and at every later member; likewise for array elements and map
+values. By induction this lifts a fault at any depth to the root. -/
+theorem C03_fault_propagates (c : Cfg) (props : List PropDef) (k kr : Bytes) (v : PTree)
+    (rest : PMembers) (st : PS) (p : PropDef) (hf : findProp props k = some p) :
+    ((∃ e, decProp c props p v st = .err e) → ∃ e, decObjMembers c props (.cons k kr v rest) st = .err e) ∧
+    (∀ st1, decProp c props p v st = .ok st1 → (∃ e, decObjMembers c props rest st1 = .err e) →
+      ∃ e, decObjMembers c props (.cons k kr v rest) st = .err e) :=
+  ⟨object_propagates c props k kr v rest st p hf,
+   fun st1 hok h => object_propagates_later c props k kr v rest st st1 p hf hok h⟩
+
+/-- a scalar fault (any of the scalar-level fault theorems above) inside a property, an array
+element or a map value fails the property / array / map -/
+theorem C03_fault_scalar_positions (c : Cfg) (k : ScalarKind) (t : PTree) (tok : GoTok)
+    (hg : goTok t = some tok) (h : ∃ e, decodeScalar c.O k tok = .err e) :
+    (∀ props p st, p.field = .scalar k → t ≠ .null → ∃ e, decProp c props p t st = .err e) ∧
+    (∀ rest acc, ∃ e, decElems c (.scalar k) (.cons t rest) acc = .err e) ∧
+    (∀ key kr rest acc, ∃ e, decMapMembers c (.scalar k) (.cons key kr t rest) acc = .err e) :=
+  ⟨fun props p st hf hnn => scalar_prop_propagates c props p k t tok st hf hg hnn h,
+   fun rest acc => array_propagates_scalar c k t tok rest acc hg h,
+   fun key kr rest acc => map_propagates_scalar c k key kr t tok rest acc hg h⟩
 
 /-! ## Non-vacuity -/
 
